@@ -13,6 +13,8 @@ ap.add_argument("--only")
 ap.add_argument("--tier", default="quick")
 ap.add_argument("--checks")
 ap.add_argument("--seed", default="0")
+ap.add_argument("--shard", help="i/n: evaluate every n-th change starting at i, results in RESULTS.<i>.json (merge with --merge)")
+ap.add_argument("--merge", action="store_true", help="merge RESULTS.<i>.json shards into RESULTS.json and rewrite RESULTS.md")
 a = ap.parse_args()
 root = "/verif/seeded"
 res_path = os.path.join(root, "RESULTS.json")
@@ -20,6 +22,19 @@ results = json.load(open(res_path)) if os.path.exists(res_path) else {}
 ids = sorted(d for d in os.listdir(root) if os.path.isdir(os.path.join(root, d)))
 if a.only:
     ids = [i for i in ids if i in a.only.split(",")]
+if a.shard:
+    si, sn = (int(x) for x in a.shard.split("/"))
+    ids = ids[si::sn]
+    res_path = os.path.join(root, "RESULTS.%d.json" % si)
+    shard_results = json.load(open(res_path)) if os.path.exists(res_path) else {}
+if a.merge:
+    import glob
+    for f in sorted(glob.glob(os.path.join(root, "RESULTS.[0-9]*.json"))):
+        for k, v in json.load(open(f)).items():
+            results.setdefault(k, {}).update(v)
+        os.remove(f)
+    json.dump(results, open(res_path, "w"), indent=1)
+    ids = []
 for i in ids:
     meta = json.load(open(os.path.join(root, i, "meta.json")))
     checks = a.checks or ",".join(meta.get("checks", [meta["property"]]))
@@ -29,8 +44,12 @@ for i in ids:
     rcs = eval(m.group(1)) if m else {"error": p.stdout[-500:] + p.stderr[-500:]}
     first = [ln.strip() for ln in p.stdout.splitlines() if ln.startswith("     ")][:2]
     results.setdefault(i, {})[a.tier] = {"rc": rcs, "first": first}
-    print(i, a.tier, rcs, first[:1])
-    json.dump(results, open(res_path, "w"), indent=1)
+    print(i, a.tier, rcs, first[:1], flush=True)
+    if a.shard:
+        shard_results.setdefault(i, {})[a.tier] = results[i][a.tier]
+        json.dump(shard_results, open(res_path, "w"), indent=1)
+    else:
+        json.dump(results, open(res_path, "w"), indent=1)
 lines = ["# Seeded changes vs checks", "", "| change | property | needs | quick | thorough |", "|---|---|---|---|---|"]
 for i in sorted(results):
     meta = json.load(open(os.path.join(root, i, "meta.json")))
@@ -41,4 +60,5 @@ for i in sorted(results):
             return "-"
         return ", ".join("%s:%s" % (k, {0: "missed", 1: "CAUGHT", 2: "machinery error"}.get(v, v)) for k, v in r["rc"].items())
     lines.append("| %s | %s | %s | %s | %s |" % (i, meta["property"], meta.get("needs", "")[:90], fmt("quick"), fmt("thorough")))
-open(os.path.join(root, "RESULTS.md"), "w").write("\n".join(lines) + "\n")
+if not a.shard:
+    open(os.path.join(root, "RESULTS.md"), "w").write("\n".join(lines) + "\n")
